@@ -58,9 +58,13 @@ pub fn strategy() -> impl Strategy<Value = Case> {
         vec(0u64..40, 24),
         vec((0usize..DELAY_POINTS.len(), 0u64..60), 0..=3),
         0u8..4,
-        (prop_oneof![1 => Just(0u32), 1 => any::<u32>()], prop_oneof![3 => Just(0u32), 1 => any::<u32>().prop_map(|x| x & 0x0421_0842)]),
+        (
+            prop_oneof![1 => Just(0u32), 1 => any::<u32>()],
+            prop_oneof![3 => Just(0u32), 1 => any::<u32>().prop_map(|x| x & 0x0421_0842)],
+            proptest::option::weighted(0.2, any::<u16>()),
+        ),
     )
-        .prop_map(|(layers, picks, ncmd, rfaults, fou, rnd, rdelays, sleep_mode, (symlinks, lingers))| {
+        .prop_map(|(layers, picks, ncmd, rfaults, fou, rnd, rdelays, sleep_mode, (symlinks, lingers, ghost))| {
             let config = gen::layered_config(&layers, &picks);
             let n = config.targets.len();
             let commands: Vec<String> = (0..ncmd).map(|i| format!("c{}", i)).collect();
@@ -78,6 +82,14 @@ pub fn strategy() -> impl Strategy<Value = Case> {
                     _ => Fault::Signal(if code % 2 == 0 { 9 } else { 15 }),
                 };
                 faults.push((c, t, f));
+            }
+            // one case in five: a command that no target defines at all (a typo, an optional step)
+            if let Some(g) = ghost {
+                let c = commands[pick(g, ncmd)].clone();
+                faults.retain(|f| f.0 != c);
+                for t in &config.targets {
+                    faults.push((c.clone(), t.path.clone(), Fault::Undefined));
+                }
             }
             let mut sleeps = vec![];
             let mut k = 0;
@@ -275,6 +287,15 @@ pub fn check(case: &Case, w: usize) -> CheckResult {
             }
         }
     }
+    if first_fail.is_none() && any_counting && (!run.failed || out.code == Some(0)) {
+        // every target and every requested command is part of this run (no checkpoint, no -t): a
+        // counting fault cannot be left out of it
+        return viol_obs(
+            "c06.failed.flag",
+            format!("failed={} and exit status {:?} although a counting fault was planned (the result document does not even list it)", run.failed, out.code),
+            json!({"faults": case.faults, "fail_on_undefined": case.fail_on_undefined, "commands_in_result": run.results.iter().map(|r| r.0.clone()).collect::<Vec<_>>()}),
+        );
+    }
     if first_fail.is_some() != any_counting {
         return inconclusive("a planned fault is not part of the plan shown in the result".into());
     }
@@ -424,6 +445,10 @@ pub fn check(case: &Case, w: usize) -> CheckResult {
         .class_if(later_work, "work-after-failure")
         .class_if(!case.delays.is_empty(), "internal-delays")
         .class_if(case.fail_on_undefined, "fail-on-undefined")
+        .class_if(
+            case.commands.iter().any(|c| cfg.targets.iter().all(|t| fault_of(case, c, &t.path) == Some(&Fault::Undefined))),
+            "a-command-no-target-defines",
+        )
         .class_if(case.symlinks != 0, "symlinked-command-files")
         .class_if(case.lingers != 0, "background-process-keeps-the-pipes-open")
         .class(&format!("groups={}", ngroups.min(4)))
